@@ -136,8 +136,23 @@ fn discovered() -> Vec<String> {
     out
 }
 
+/// Filters that take option flags get one program per flag (and a few pairs) on one and the same
+/// pattern: a cache keyed too coarsely hands one program the compiled form of another.
+fn flagged() -> Vec<String> {
+    let mut out = Vec::new();
+    let flags = ["", "g", "n", "i", "x", "s", "m", "l", "p", "gi", "gl", "il", "xs", "gn"];
+    for f in flags {
+        out.push(format!("[match(\"a+ ?\"; \"{f}\") | .string]"));
+        out.push(format!("[scan(\"[a-z]+.\"; \"{f}\")]"));
+        out.push(format!("sub(\"(?<x>a+)\"; \"<\\(.x)>\"; \"{f}\")"));
+        out.push(format!("[splits(\"a+ ?\"; \"{f}\")]"));
+        out.push(format!("test(\"B.N\"; \"{f}\")"));
+    }
+    out.into_iter().map(|p| format!("[limit(8; try (tostring | {p}) catch \"E\")]")).collect()
+}
+
 pub fn programs() -> Vec<String> {
-    PROGRAMS.iter().map(|s| s.to_string()).chain(discovered()).collect()
+    PROGRAMS.iter().map(|s| s.to_string()).chain(discovered()).chain(flagged()).collect()
 }
 
 pub const INPUTS: &[&str] = &[
@@ -149,6 +164,7 @@ pub const INPUTS: &[&str] = &[
     "[[1, 2], [3, 4]]",
     "[{\"a\": 2, \"b\": \"x\"}, {\"a\": 1, \"b\": \"yy\"}]",
     "\"ab\"",
+    "\"caaat AAa\\nbanana Ban\\nB\\nN aa\"",
     "\"a &lt;b&gt; &amp; &quot;q&quot; <i> x%20y%2Fz aGVsbG8= ON2WG2DFON2A====\"",
 ];
 
